@@ -63,6 +63,8 @@ func runDIRTYWRITERS(c *Ctx) {
 			c.OK(pos, what, "fresh node created by this operation", false)
 		case w.Class.Own == Unshared && mut[w.Fn]:
 			c.OK(pos, what, "copied path node inside a mutator ("+w.Class.Why+")", false)
+		case w.Class.Own == ParamOwn && dirtyParamOK(c, A, mut, w.Fn, w.Class.Param, 0):
+			c.OK(pos, what, "parameter "+w.Class.Param.Name()+" of a private helper: every call site passes a node created by the operation or a copied path node inside a mutator", false)
 		default:
 			c.Violation(w.Fn, pos, "dirty=true on a node that is neither new nor a copied path node",
 				"a node of the previous version is scheduled for rewriting although no modified key lies in it ("+w.Class.Why+")")
@@ -84,89 +86,209 @@ func runDIRTYWRITERS(c *Ctx) {
 	}
 }
 
+// dirtyParamOK: fn is a private helper (all call sites known) and each of them passes, for parameter p, a node that
+// is fresh, or unshared inside a mutator, or its own parameter under the same condition (two levels).
+func dirtyParamOK(c *Ctx, A *ownAnalysis, mut map[*ssa.Function]bool, fn *ssa.Function, p *ssa.Parameter, depth int) bool {
+	if p == nil || depth > 2 || fn.Parent() != nil || fn.Object() == nil || fn.Object().Exported() || c.Facts.addrTaken[fn] {
+		return false
+	}
+	callers := c.P.Callers[fn]
+	if len(callers) == 0 {
+		return false
+	}
+	k := paramIndex(p)
+	for _, cs := range callers {
+		args := cs.Common().Args
+		if k < 0 || k >= len(args) {
+			return false
+		}
+		cl := A.Classify(args[k], cs)
+		switch {
+		case cl.Own == Fresh:
+		case cl.Own == Unshared && mut[cs.Parent()]:
+		case cl.Own == ParamOwn && dirtyParamOK(c, A, mut, cs.Parent(), cl.Param, depth+1):
+		default:
+			return false
+		}
+	}
+	return true
+}
+
 func runNOOPEARLY(c *Ctx) {
 	P := c.P
 	ins := c.MustFunc("(*Mast).Insert")
 	if ins == nil {
 		return
 	}
-	effs := c.Facts.EffectsIn(ins)
-	ei := ir.ErrorResultIndex(ins.Signature)
-	found := 0
-	for _, r := range ir.Returns(ins) {
-		if !ir.IsNilConst(r.Results[ei]) {
+	// the scopes of Insert's region: Insert itself, and each private helper of it under the chain of calls leading to it
+	type scope struct {
+		fn    *ssa.Function
+		chain []*ssa.Call
+	}
+	scopes := []scope{{ins, nil}}
+	seenScope := map[string]bool{}
+	for _, rs := range regionSites(c, ins) {
+		if len(rs.chain) == 0 {
 			continue
 		}
-		isNoop := false
-		for _, f := range ir.FactsAt(r.Block()) {
-			if call, ok := f.Cond.(*ssa.Call); ok && f.Truth {
-				if sc := ir.Callee(call.Call); sc != nil && sc.String() == "reflect.DeepEqual" {
-					isNoop = true
+		key := ir.FuncName(rs.ci.Parent())
+		for _, cs := range rs.chain {
+			key += "@" + P.InstrPos(cs)
+		}
+		if !seenScope[key] {
+			seenScope[key] = true
+			scopes = append(scopes, scope{rs.ci.Parent(), rs.chain})
+		}
+	}
+	isDeepEqual := func(v ssa.Value) bool {
+		call, ok := v.(*ssa.Call)
+		if !ok {
+			return false
+		}
+		sc := ir.Callee(call.Call)
+		return sc != nil && sc.String() == "reflect.DeepEqual"
+	}
+	// the helper's answer is Insert's answer: each call of the chain is returned as it is
+	tail := func(chain []*ssa.Call) bool {
+		for _, cs := range chain {
+			ei := ir.ErrorResultIndex(cs.Parent().Signature)
+			okTail := false
+			if cs.Referrers() != nil && ei >= 0 && cs.Call.Signature().Results().Len() == 1 {
+				for _, r := range *cs.Referrers() {
+					if ret, isRet := r.(*ssa.Return); isRet && ret.Results[ei] == ssa.Value(cs) {
+						okTail = true
+					}
+				}
+			}
+			if !okTail {
+				return false
+			}
+		}
+		return true
+	}
+	// the first effect that can run before instruction `at` of scope sc
+	firstEffect := func(sc scope, at ssa.Instruction) *Effect {
+		for i, cs := range sc.chain {
+			holder := ins
+			if i > 0 {
+				holder = ir.Callee(sc.chain[i-1].Call)
+			}
+			effs := c.Facts.EffectsIn(holder)
+			for k := range effs {
+				if effs[k].Instr != ssa.Instruction(cs) && ir.InstrReaches(effs[k].Instr, cs) {
+					return &effs[k]
 				}
 			}
 		}
-		if !isNoop {
-			continue
-		}
-		found++
-		var first *Effect
-		for i := range effs {
-			if ir.InstrReaches(effs[i].Instr, r) {
-				first = &effs[i]
-				break
+		effs := c.Facts.EffectsIn(sc.fn)
+		for k := range effs {
+			if ir.InstrReaches(effs[k].Instr, at) {
+				return &effs[k]
 			}
 		}
-		if first == nil {
-			c.OK(P.InstrPos(r), "no-op Insert returns early", "no tree-visible effect precedes the equal-value return", false)
-		} else {
-			c.Violation(ins, P.InstrPos(r), "effect before the no-op return", "inserting an equal value already changed the tree ("+first.Desc+" at "+P.InstrPos(first.Instr)+"): the tree reports dirty and the next MakeRoot rewrites the path")
+		return nil
+	}
+	found := 0
+	for _, sc := range scopes {
+		ei := ir.ErrorResultIndex(sc.fn.Signature)
+		if ei < 0 {
+			continue
+		}
+		for _, r := range ir.Returns(sc.fn) {
+			if !ir.IsNilConst(r.Results[ei]) {
+				continue
+			}
+			isNoop := false
+			for _, f := range ir.FactsAt(r.Block()) {
+				if f.Truth && isDeepEqual(f.Cond) {
+					isNoop = true
+				}
+			}
+			if !isNoop || !tail(sc.chain) {
+				continue
+			}
+			found++
+			if first := firstEffect(sc, r); first == nil {
+				c.OK(P.InstrPos(r), "no-op Insert returns early", "no tree-visible effect precedes the equal-value return", false)
+			} else {
+				c.Violation(ins, P.InstrPos(r), "effect before the no-op return", "inserting an equal value already changed the tree ("+first.Desc+" at "+P.InstrPos(first.Instr)+"): the tree reports dirty and the next MakeRoot rewrites the path")
+			}
 		}
 	}
 	// (2) once the key was found, nothing is changed unless the values were compared and differ: every effect
 	// in the key-found region sits on the false edge of DeepEqual(stored value, new value)
-	for _, b := range ins.Blocks {
-		for _, in := range b.Instrs {
-			de, ok := in.(*ssa.Call)
-			if !ok {
-				continue
-			}
-			if sc := ir.Callee(de.Call); sc == nil || sc.String() != "reflect.DeepEqual" {
-				continue
-			}
-			var keyFound ssa.Value
-			for _, f := range ir.FactsAt(b) {
-				if bin, ok := f.Cond.(*ssa.BinOp); ok && ((bin.Op == token.EQL && f.Truth) || (bin.Op == token.NEQ && !f.Truth)) {
-					if k, isK := ir.ConstInt(bin.Y); isK && k == 0 {
-						if _, isInt := bin.X.Type().Underlying().(*types.Basic); isInt {
-							keyFound = f.Cond
-						}
-					}
-				}
-			}
-			if keyFound == nil {
-				continue
-			}
-			for i := range effs {
-				eb := effs[i].Instr.Block()
-				inRegion, onFalse := false, false
-				for _, f := range ir.FactsAt(eb) {
-					if f.Cond == keyFound {
-						if bin := keyFound.(*ssa.BinOp); (bin.Op == token.EQL) == f.Truth {
-							inRegion = true
-						}
-					}
-					if f.Cond == ssa.Value(de) && !f.Truth {
-						onFalse = true
-					}
-				}
-				if !inRegion {
+	isKeyFound := func(f ir.Fact) bool {
+		bin, ok := f.Cond.(*ssa.BinOp)
+		if !ok || !((bin.Op == token.EQL && f.Truth) || (bin.Op == token.NEQ && !f.Truth)) {
+			return false
+		}
+		k, isK := ir.ConstInt(bin.Y)
+		if !isK || k != 0 {
+			return false
+		}
+		_, isInt := bin.X.Type().Underlying().(*types.Basic)
+		return isInt
+	}
+	for _, sc := range scopes {
+		for _, b := range sc.fn.Blocks {
+			for _, in := range b.Instrs {
+				de, ok := in.(*ssa.Call)
+				if !ok || !isDeepEqual(de) {
 					continue
 				}
-				if onFalse {
-					c.OK(P.InstrPos(effs[i].Instr), "update of an existing key: "+effs[i].Desc, "only on the false edge of DeepEqual(stored, new)", false)
-				} else {
-					c.Violation(ins, P.InstrPos(effs[i].Instr), "existing key updated without the values having been compared",
-						"on some path the key was found and the tree is changed ("+effs[i].Desc+") although DeepEqual(stored value, new value) was not evaluated to false: re-inserting an equal value dirties the path and the next MakeRoot rewrites nodes for an unmodified tree")
+				var keyFound ssa.Value
+				whole := false // the whole helper runs in the key-found region (the fact holds at a call of the chain)
+				for _, f := range ir.FactsAt(b) {
+					if isKeyFound(f) {
+						keyFound = f.Cond
+					}
+				}
+				var foundAt *ssa.Call
+				if keyFound == nil {
+					for _, cs := range sc.chain {
+						for _, f := range ir.FactsAt(cs.Block()) {
+							if isKeyFound(f) {
+								keyFound, whole, foundAt = f.Cond, true, cs
+							}
+						}
+					}
+				}
+				if keyFound == nil {
+					continue
+				}
+				check := func(fn *ssa.Function, skip ssa.Instruction, all bool) {
+					effs := c.Facts.EffectsIn(fn)
+					for i := range effs {
+						if effs[i].Instr == skip {
+							continue
+						}
+						eb := effs[i].Instr.Block()
+						inRegion, onFalse := all, false
+						for _, f := range ir.FactsAt(eb) {
+							if f.Cond == keyFound {
+								if bin := keyFound.(*ssa.BinOp); (bin.Op == token.EQL) == f.Truth {
+									inRegion = true
+								}
+							}
+							if f.Cond == ssa.Value(de) && !f.Truth {
+								onFalse = true
+							}
+						}
+						if !inRegion {
+							continue
+						}
+						if onFalse {
+							c.OK(P.InstrPos(effs[i].Instr), "update of an existing key: "+effs[i].Desc, "only on the false edge of DeepEqual(stored, new)", false)
+						} else {
+							c.Violation(ins, P.InstrPos(effs[i].Instr), "existing key updated without the values having been compared",
+								"on some path the key was found and the tree is changed ("+effs[i].Desc+") although DeepEqual(stored value, new value) was not evaluated to false: re-inserting an equal value dirties the path and the next MakeRoot rewrites nodes for an unmodified tree")
+						}
+					}
+				}
+				check(sc.fn, nil, whole)
+				if whole {
+					// effects of the function holding the key-found test, other than the call that compares the values
+					check(foundAt.Parent(), foundAt, false)
 				}
 			}
 		}
@@ -452,10 +574,54 @@ func presentOf(m map[string][]*ssa.Store) []string {
 // rootFieldDeps collects the Root fields (loads of r.<field>) a value depends
 // on through operands, phis and the conditions of loops containing the phis.
 func rootFieldDeps(v ssa.Value, seen map[ssa.Value]bool, out map[string]bool) {
+	rootFieldDepsE(v, seen, out, map[*ssa.Parameter]ssa.Value{}, 0)
+}
+
+// rootFieldDepsE follows the value into same-package helpers (`r.shrinkThreshold()`): the helper's results stand for
+// the call, its parameters for the arguments; what a helper with no body or an unresolved callee returns is recorded
+// as the dependency "call:<name>" so that it never passes for a pure function of the record's fields.
+func rootFieldDepsE(v ssa.Value, seen map[ssa.Value]bool, out map[string]bool, env map[*ssa.Parameter]ssa.Value, depth int) {
 	if v == nil || seen[v] {
 		return
 	}
 	seen[v] = true
+	rootFieldDeps := func(v ssa.Value, seen map[ssa.Value]bool, out map[string]bool) {
+		rootFieldDepsE(v, seen, out, env, depth)
+	}
+	if p, ok := v.(*ssa.Parameter); ok {
+		if a, bound := env[p]; bound {
+			rootFieldDeps(a, seen, out)
+		}
+		return
+	}
+	if ex, ok := v.(*ssa.Extract); ok {
+		if call, isCall := ex.Tuple.(*ssa.Call); isCall {
+			if h := ir.Callee(call.Call); h != nil && h.Blocks != nil && h.Pkg != nil && h.Pkg.Pkg.Path() == ir.MastPath && depth < 3 && len(call.Call.Args) == len(h.Params) {
+				for i, hp := range h.Params {
+					env[hp] = call.Call.Args[i]
+				}
+				for _, r := range ir.Returns(h) {
+					if ex.Index < len(r.Results) {
+						rootFieldDepsE(r.Results[ex.Index], seen, out, env, depth+1)
+					}
+				}
+				return
+			}
+		}
+	}
+	if call, isCall := v.(*ssa.Call); isCall {
+		if _, isB := call.Call.Value.(*ssa.Builtin); !isB {
+			if h := ir.Callee(call.Call); h != nil && h.Blocks != nil && h.Pkg != nil && h.Pkg.Pkg.Path() == ir.MastPath && depth < 3 && len(call.Call.Args) == len(h.Params) && h.Signature.Results().Len() == 1 {
+				for i, hp := range h.Params {
+					env[hp] = call.Call.Args[i]
+				}
+				for _, r := range ir.Returns(h) {
+					rootFieldDepsE(r.Results[0], seen, out, env, depth+1)
+				}
+				return
+			}
+		}
+	}
 	if ld, ok := v.(*ssa.UnOp); ok && ld.Op == token.MUL {
 		if fa, ok := ld.X.(*ssa.FieldAddr); ok && ir.IsPtrToNamed(fa.X.Type(), "Root") {
 			out[ir.FieldName(fa.X.Type(), fa.Field)] = true
